@@ -10,7 +10,9 @@ for a in sys.argv[1:]:
         tier = a.split("=")[1]
 sid = args[0]
 checks = args[1:] or [json.load(open(os.path.join(V, "seeded", sid, "meta.json")))["property"]]
-patch = os.path.join(V, "seeded", sid, "patch.diff")
+patch = os.path.join(V, "seeded", sid, "patch_rebased.diff")
+if not os.path.exists(patch):
+    patch = os.path.join(V, "seeded", sid, "patch.diff")
 st = subprocess.run(["git", "-C", "/repo", "status", "--porcelain"], capture_output=True, text=True).stdout.strip()
 if st:
     print("repo not clean:", st)
